@@ -48,6 +48,11 @@ def run_case(case, ctx):
     t1 = datetime.datetime.fromisoformat(case['t1'])
     bump = mk_bump(case['bump'])
     kind = case['kind']
+    if case.get('tz') is not None:
+        # endpoints that carry a (fixed-offset) time zone: the list is made of the same kind of datetime, whatever its length
+        tz_ = datetime.timezone(datetime.timedelta(minutes=case['tz']))
+        t0, t1 = t0.replace(tzinfo=tz_), t1.replace(tzinfo=tz_)
+        ctx.cls('tz_aware_endpoints')
     span_days = abs((t1 - t0).days) + 1
     # ---- expected by iteration
     fwd = t1 >= t0
@@ -106,7 +111,7 @@ def run_case(case, ctx):
     try:
         from .C13 import flavour
         with StepBudget(codes, budget) as sb:
-            st, res = ctx.call(drange, flavour(t0, case.get('t0f')), flavour(t1, case.get('t1f')), bump)
+            st, res = ctx.call(drange, flavour(t0, case.get('t0f')), flavour(t1, case.get('t1f')), bump) if case.get('tz') is None else ctx.call(drange, t0, t1, bump)
     finally:
         if poisoned:
             from pyg_base import _drange
@@ -229,6 +234,12 @@ def gen_case(rng):
         usec = {'h': 3600, 'n': 60, 's': 1}[u]
         t0 = day + datetime.timedelta(hours=rng.randrange(24), minutes=rng.randrange(60), seconds=rng.randrange(60))
         t1 = t0 + datetime.timedelta(seconds=usec * abs(n) * rng.choice([0, 1, 3, 20, 50]) + rng.choice([0, 1, 59])) * sign
+        if rng.random() < 0.3:
+            # a start stamped to the microsecond, an end with another (or no) sub-second part
+            t0 = t0 + datetime.timedelta(microseconds=rng.choice([5, 250000, 500000, 999999]))
+            t1 = t1.replace(microsecond=rng.choice([0, 0, 100, 400000, 999999]))
+            if (t1 - t0).total_seconds() * sign < 0:
+                t1 = t0
         bump = '%d%s' % (n, u)
         big = True
     elif kind == 'b':
@@ -239,7 +250,7 @@ def gen_case(rng):
         big = abs(k) > 1
     else:
         parts = []
-        units = rng.choice(['md', 'yd', 'wd', 'dh', 'mw', 'qd', 'hn', 'ym', 'bd', 'wb', 'db', 'mb', 'qb'])     # also compounds that END in a business-day part
+        units = rng.choice(['md', 'yd', 'wd', 'dh', 'mw', 'qd', 'hn', 'ym', 'bd', 'wb', 'db', 'mb', 'qb', 'dd', 'wdd', 'hnh', 'nsn', 'hh', 'dwd'])     # also compounds that END in a business-day part, and ones naming a unit twice
         for u in units:
             parts.append('%d%s' % (rng.choice([1, 2, 3]) * sign, u))
         if rng.random() < 0.3:
@@ -257,7 +268,7 @@ def gen_case(rng):
         bump = ''.join(parts)
         intr = any(u in 'hns' for u in units)
         t0 = day + (datetime.timedelta(hours=rng.randrange(24)) if intr else datetime.timedelta(0))
-        approx = sum({'d': 1, 'w': 7, 'm': 30, 'q': 91, 'y': 365, 'h': 0.05, 'n': 0.001, 'b': 1.4}[u] for u in units)
+        approx = sum({'d': 1, 'w': 7, 'm': 30, 'q': 91, 'y': 365, 'h': 0.05, 'n': 0.001, 's': 0.00002, 'b': 1.4}[u] for u in units)
         if rng.random() < 0.15:
             bump = bump.upper()            # unit letters are case-insensitive
         t1 = t0 + datetime.timedelta(days=approx * rng.choice([0, 1, 2, 4, 9]) + rng.choice([0, 1])) * sign
@@ -271,6 +282,8 @@ def gen_case(rng):
     case = {'kind': kind, 't0': t0.isoformat(), 't1': t1.isoformat(), 'bump': bump, 'big': big, 'via_calendar': rng.random() < 0.15, 'default_calendar_has_holidays': rng.random() < 0.3}
     if rng.random() < 0.25:
         case['warm_longer'] = True
+    if kind in ('int', 'nd', 'td', 'td_intra', 'single_intra') and rng.random() < 0.12:
+        case['tz'] = rng.choice([0, 330, -300, 60])
     if rng.random() < 0.2:
         # the endpoints as a caller may hold them: pandas Timestamp, numpy datetime64, ISO text, date
         case['t0f'] = rng.choice([None, 'Timestamp', 'dt64', 'str', 'date'])
